@@ -15,6 +15,15 @@
 //! on a well-formed, well-sized input is reported as a disagreement.
 //!
 //! `case` (search only): `OpName`, `wN` (N in 8,16,32,64) or `OpName:wN`.
+//! `sweep` additionally reports `member_checks` and `kinds` (disagreements by violated clause).
+//! Environment: `VERIF_DUMP=n` prints the first n disagreements of every kind to stderr;
+//! `VERIF_PANIC_TRACE=1` keeps the default panic hook (message + source location of a caught panic).
+//! `c02.selftest` checks the reference against itself (no real code involved).
+//!
+//! Replay inputs: `{"fn": twin, "w": bits, "a": {"start","end","stride"[,"lower_hint","upper_hint"]},
+//! ["b": {..}, "wb": bits,] ["op": name,] ["t" | "low_byte" | "size" | "stride","remainder" | "v" | "bound",]
+//! ["x": member of a, "y": member of b]}`; with `x` / `y` only that member (pair) is re-checked,
+//! without them all members (a sample above 65536 members).
 use crate::c01::{ref_bin, ref_cast, ref_un, BIN_OPS, CAST_OPS, UN_OPS};
 use crate::util::*;
 use apint::Width;
